@@ -145,6 +145,7 @@ class LubaGW(SerialDevice):
         self.nmsg = 0
         self.silent_confirm = set()   # send indices whose confirmations are lost
         self.silent_answer = set()    # send indices whose answer event is lost
+        self.late_confirm = {}        # send idx -> extra us
         self.late_answers = 0
 
     # ---- host -> gateway ---------------------------------------------------
@@ -235,7 +236,7 @@ class LubaGW(SerialDevice):
         fbytes = list(value.to_bytes(nbytes, "big"))
         lost_conf = idx in self.silent_confirm
         lat1 = self.lat.draw(self.name, "c1", idx)
-        conf_arrival = end + 3000 + lat1
+        conf_arrival = end + 3000 + lat1 + self.late_confirm.get(idx, 0)
         if not lost_conf:
             conf_arrival = self.event(0, bits, [tx_id] + fbytes, conf_arrival, "sent") or conf_arrival
         if twice:
